@@ -402,10 +402,10 @@ Proof.
     assert (Hm2 : count_commas_k (H0 ++ fl_cmp e) = 0)
       by (rewrite count_commas_app, Hc0, (nocomma_count _ (cmp_nocomma e)); reflexivity).
     destruct (Ht ltac:(lia) ltac:(apply is_sep_app; [lia | exact Hs0]) (Hf0 _) Hm2 j qa qb Ha Hb) as [H1 [H2 [H3 H4]]].
-    cbn [fl_sep].
+    cbn [fl_sep] in *. cbn [Nat.add] in H3, H4.
     replace (cm (k_c1 c) ++ Ident (k_f c) :: cm (k_c2 c) ++ LParen :: (fl_cmp e ++ fl_tail fl_cmp l) ++ cm (k_c3 c) ++ RParen :: cm (k_c4 c) ++ [Semic])
       with ((H0 ++ fl_cmp e) ++ fl_tail fl_cmp l ++ cm (k_c3 c) ++ RParen :: cm (k_c4 c) ++ [Semic]) in * by (unfold H0; listeq).
-    Show. repeat split; assumption.
+    repeat split; assumption.
   - cbn [app] in Ha, Hb. destruct j as [|[|j]]; cbn [nth_error] in Ha, Hb; try discriminate.
     injection Ha as <-. injection Hb as <-. cbn [fl_sep app] in *.
     replace (cm (k_c1 c) ++ Ident (k_f c) :: cm (k_c2 c) ++ LParen :: cm (k_c3 c) ++ RParen :: cm (k_c4 c) ++ [Semic])
